@@ -95,6 +95,30 @@ MUTANTS = [
      "old": "        agent.initialize()\n        self.agents.append(agent)\n", "new": "        agent.initialize()\n        self.agents.append(agent)\n        self.events += [e for e in self.events if e.receiver_id == agent.id - 1][:1]\n"},
     {"id": "c11-dead-receiver-falls-to-first-agent", "property": "C11", "file": SCH,
      "old": "                if receiver is not None:\n", "new": "                if receiver is None and model.agents:\n                    receiver = model.agents[0]\n                if receiver is not None:\n"},
+    # ---- C12
+    {"id": "c12-range-stop-exclusive", "property": "C12", "file": SCH,
+     "old": "range(model.starttime, model.stoptime + 1)", "new": "range(model.starttime, model.stoptime)"},
+    {"id": "c12-act-before-handle", "property": "C12", "file": SCH,
+     "old": "            agent.handle_events(time, sim_round, step)\n            agent.act(time, sim_round, step)",
+     "new": "            agent.act(time, sim_round, step)\n            agent.handle_events(time, sim_round, step)"},
+    {"id": "c12-time-ignores-dt", "property": "C12", "file": SCH,
+     "old": "        time = sim_round + step * model.dt", "new": "        time = sim_round + step"},
+    {"id": "c12-collect-although-off", "property": "C12", "file": SCH,
+     "old": "                if sim_round == model.stoptime and step == (round(1 / model.dt) - 1):", "new": "                if True:"},
+    {"id": "c12-final-collect-first-step-of-last-round", "property": "C12", "file": SCH,
+     "old": "                if sim_round == model.stoptime and step == (round(1 / model.dt) - 1):", "new": "                if sim_round == model.stoptime and step == 0:"},
+    {"id": "c12-steps-per-round-truncated", "property": "C12", "file": SCH,
+     "old": "                for step in range(round(1 / model.dt)):", "new": "                for step in range(int(1 / model.dt)):",
+     "note": "int(1/0.1) == 10 but int(1/0.2)... all fine; int(1/0.3) differs - survives unless dt with inexact reciprocal"},
+    {"id": "c12-end-round-before-agents", "property": "C12", "file": SCH,
+     "old": "        model.begin_round(time, sim_round, step)\n", "new": "        model.begin_round(time, sim_round, step)\n        model.end_round(time, sim_round, step)\n",
+     "edits": [("            agent.act(time, sim_round, step)\n\n        model.end_round(time, sim_round, step)\n", "            agent.act(time, sim_round, step)\n")]},
+    {"id": "c12-shared-scheduler-state", "property": "C12", "file": "BPTK_Py/scenariomanager/scenario_manager_hybrid.py",
+     "old": "                    scenario.scheduler = SimultaneousScheduler()\n                    scenario.data_collector = DataCollector() if not scenario.data_collector else scenario.data_collector",
+     "new": "                    scenario.scheduler = self.model.scheduler\n                    scenario.data_collector = DataCollector() if not scenario.data_collector else scenario.data_collector",
+     "note": "all scenarios share the base model's scheduler object (its delayed_events list and running flag)"},
+    {"id": "c12-skip-first-agent-when-many", "property": "C12", "file": SCH,
+     "old": "        for agent in model.agents:\n            agent.handle_events", "new": "        for agent in (model.agents if len(model.agents) < 6 else model.agents[1:]):\n            agent.handle_events"},
     # ---- C14
     {"id": "c14-count-per-state-by-position", "property": "C14", "file": M,
      "old": "            if self.agent(agent_id).state == state:", "new": "            if self.agents[agent_id].state == state:"},
